@@ -125,6 +125,35 @@ def concretise(beh, idx, rng, tag):
             "cfg": {"cols": ["a", "b"], "epn": epn, "cache": cache, "log_nodes": 0, "log_reads": 0}, "steps": steps}
 
 
+def rowapi_scenarios(workdir, tier, rng, tag="ra"):
+    """Every behaviour of the exhaustive single-writer configuration (1 key, 5 write times, 5 statements, all
+    orders), executed through the exported Go API of the s3db package (no SQLite): one implementation run per
+    behaviour of the model."""
+    b, d, g, w = vf.gen_behaviours(workdir, "S3db", cfg_text(["w1"], ["k1"], 5, 5, 0, 1), name="gen_single5", timeout=900)
+    note = "S3db single writer, 1 key, 5 times, 5 stmts, exhaustive: %d behaviours, %d distinct states, %.0fs (all executed through the Go API)" % (len(b), d, w)
+    scen = []
+    idxs = list(range(len(b)))
+    if tier == "quick":
+        rng.shuffle(idxs)
+        idxs = sorted(idxs[:12000])
+        note += "; quick tier: %d of them, sampled by seed" % len(idxs)
+    for i in idxs:
+        beh = b[i]
+        steps = []
+        n = 0
+        for st in beh:
+            if st["op"] != "stmt":
+                continue
+            n += 1
+            steps.append({"op": "stmt", "c": "w", "id": "s%d" % n, "kind": st["kind"], "key": "i:1",
+                          "cols": {c: "t:%s%d" % (c, st["wt"]) for c in st["cs"]}, "wt": st["wt"]})
+            if n >= 3:
+                steps.append({"op": "rows", "c": "w"})
+        scen.append({"id": "%s-%d" % (tag, i), "kind": "rowapi", "features": ["rowapi"],
+                     "cfg": {"cols": ["a", "b"], "epn": 0, "log_s3": 0}, "steps": steps})
+    return scen, d, g, note
+
+
 def generate(workdir, tier, rng):
     """Return (scenarios, spec_states, spec_transitions, notes)."""
     behs = []
@@ -190,6 +219,11 @@ def generate(workdir, tier, rng):
         rng.shuffle(mid)
         behs += mid[:40000]
     scen = [concretise(x, i, rng, "mrg") for i, x in enumerate(behs)]
+    ra, d, g, note = rowapi_scenarios(workdir, tier, rng)
+    notes.append(note)
+    states += d
+    trans += g
+    scen += ra
     return scen, states, trans, notes, n_small
 
 
